@@ -336,8 +336,8 @@ func (x *c19Run) pipeRead(p *c19Pipe, lenp int, rd net.Conn, closedLocally bool)
 	if dl > 0 && cls == 0 && lenp > 0 && n == 0 {
 		x.fail("Read returned nothing")
 	}
-	if el > 5*time.Second {
-		x.fail("Read took more than 5s")
+	if el > 9*time.Second {
+		x.fail("Read took more than 9s")
 	}
 	if n > 0 {
 		p.got += n
@@ -815,7 +815,7 @@ func c19Scenario(id int, seed uint64, dir string) c19Case {
 		}
 		// sessions expected to end: wait for them (generously); the others: give them time to end wrongly
 		// (a session with a conn that was never delivered used to stay pinned: give it 1.5 s, not 4)
-		c19Wait(1500*time.Millisecond, func() bool {
+		c19Wait(6*time.Second, func() bool {
 			for si, ss := range x.sess {
 				if exps[si].wantClosed && !ss.server.IsClosed() {
 					return false
@@ -823,7 +823,7 @@ func c19Scenario(id int, seed uint64, dir string) c19Case {
 			}
 			return true
 		})
-		c19Wait(4*time.Second, func() bool {
+		c19Wait(6*time.Second, func() bool {
 			for si, ss := range x.sess {
 				if exps[si].wantClosed && !exps[si].undelivered && !ss.server.IsClosed() {
 					return false
@@ -914,7 +914,7 @@ func c19Pinned(id int, dir string, lostToSelect bool) c19Case {
 	for _, st := range x.sess[0].streams {
 		x.clientClose(st)
 	}
-	c19Wait(1500*time.Millisecond, func() bool { return x.sess[0].server.IsClosed() })
+	c19Wait(6*time.Second, func() bool { return x.sess[0].server.IsClosed() })
 	final := []bool{x.sess[0].server.IsClosed()}
 	if !final[0] {
 		x.fail("KNOWN: listener closed, every conn handed out by Accept closed, but a conn that was never delivered (left in the backlog / dropped by the select) pins the server session open")
@@ -986,7 +986,7 @@ func c19Race(id int, dir string) c19Case {
 	for _, st := range x.delivered(true) {
 		x.serverClose(st, 1)
 	}
-	c19Wait(1500*time.Millisecond, func() bool {
+	c19Wait(6*time.Second, func() bool {
 		for _, ss := range x.sess {
 			if !ss.server.IsClosed() {
 				return false
@@ -1117,7 +1117,7 @@ func c19Hook(id int, dir string, preQueued bool) c19Case {
 	for _, st := range x.delivered(true) {
 		x.serverClose(st, 1)
 	}
-	c19Wait(1500*time.Millisecond, func() bool { return x.sess[0].server.IsClosed() })
+	c19Wait(6*time.Second, func() bool { return x.sess[0].server.IsClosed() })
 	final := []bool{x.sess[0].server.IsClosed()}
 	if !final[0] {
 		x.fail("KNOWN: listener closed, every conn handed out by Accept closed, but a conn that was never delivered (left in the backlog / dropped by the select) pins the server session open")
@@ -1228,7 +1228,7 @@ func c19Stress(id int, seed uint64, dir string, held bool) c19Case {
 	for _, st := range x.delivered(true) {
 		x.serverClose(st, 1)
 	}
-	c19Wait(1500*time.Millisecond, func() bool {
+	c19Wait(6*time.Second, func() bool {
 		for _, ss := range x.sess {
 			if !ss.server.IsClosed() {
 				return false
@@ -1361,7 +1361,7 @@ func c19ConcurrentClose(id int, dir string, closers int, listenerOpen bool) c19C
 		x.listenerClose(1)
 	}
 	if !early {
-		c19Wait(1500*time.Millisecond, func() bool { return ss.server.IsClosed() })
+		c19Wait(6*time.Second, func() bool { return ss.server.IsClosed() })
 		if !ss.server.IsClosed() {
 			x.fail("listener closed and every conn closed but the server session is still open")
 		}
@@ -1495,7 +1495,7 @@ func c19Duplex(id int, seed uint64, dir string, wsize, rsize, msg, mread, nbig, 
 		buf := make([]byte, size)
 		var off int64
 		for off < total && atomic.LoadInt32(&failed) == 0 {
-			r.SetReadDeadline(time.Now().Add(10 * time.Second))
+			r.SetReadDeadline(time.Now().Add(30 * time.Second))
 			n, e := r.Read(buf)
 			if e != nil {
 				fail("duplex: %s Read failed with class %d before the stream was complete", who, c19ErrClass(e))
@@ -1525,8 +1525,8 @@ func c19Duplex(id int, seed uint64, dir string, wsize, rsize, msg, mread, nbig, 
 	go func() { wg.Wait(); close(done) }()
 	select {
 	case <-done:
-	case <-time.After(40 * time.Second):
-		fail("duplex: the four goroutines did not finish within 40s (a Read or Write hangs)")
+	case <-time.After(90 * time.Second):
+		fail("duplex: the four goroutines did not finish within 90s (a Read or Write hangs)")
 		atomic.StoreInt32(&failed, 1)
 	}
 	x.feat["full-duplex"] = true
